@@ -11,7 +11,26 @@ MATCHERS = {}
 
 def run(res: C.Result, deep: bool):
     MP.run_for(PROP, res, deep, MATCHERS)
+    # last clause of C06: options reach the wire as named through Client.connect and client_context (real Client, fake socket)
+    from .. import client_entry as E
+    r = E.check_entry_points()
+    res.evaluations += r["cases"]
+    res.extra["client_entry_cases"] = r["cases"]
+    for f in r["failures"]:
+        res.failures.append(C.Failure(clause="options_honoured: " + f["what"], case={"client_entry": f},
+                                      detail=f"{f['entry']}({f['options']}): {f['what']}",
+                                      finding=C.match_finding(PROP, f["what"], f, MATCHERS)))
 
 
 def replay(body):
+    case = body.get("case") or {}
+    if "client_entry" in case:
+        from .. import client_entry as E
+        C.use_repo()
+        r = E.check_entry_points()
+        want = case["client_entry"]
+        bad = [f for f in r["failures"] if f["entry"] == want["entry"] and f["options"] == want["options"]]
+        for f in bad:
+            print(f)
+        return 1 if bad else 0
     return MP.replay(PROP, body)
